@@ -112,9 +112,10 @@ class H11Protocol:
 
     async def handle(self, event: Event) -> None:
         if isinstance(event, RawData):
-            if self.connection.their_state is h11.MUST_CLOSE:
-                # The connection closes after the current response,
-                # anything further the client sends is discarded.
+            if self.closed or self.connection.their_state is h11.MUST_CLOSE:
+                # The connection is closing (or closes after the
+                # current response), anything further the client
+                # sends is discarded.
                 return
             self.connection.receive_data(event.data)
             await self._handle_events()
@@ -182,6 +183,8 @@ class H11Protocol:
                 elif event is h11.PAUSED:
                     await self.can_read.clear()
                     await self.can_read.wait()
+                    if self.closed:
+                        break  # Woken to stop, anything pipelined is discarded
                 elif isinstance(event, h11.ConnectionClosed) or event is h11.NEED_DATA:
                     break
                 elif self.stream is None:
@@ -293,6 +296,8 @@ class H11Protocol:
             try:
                 self.connection.start_next_cycle()
             except h11.LocalProtocolError:
+                self.closed = True
+                await self.can_read.set()
                 await self.send(Closed())
             else:
                 self.response = None
@@ -300,6 +305,7 @@ class H11Protocol:
                 await self.can_read.set()
                 await self.send(Updated(idle=True))
         else:
+            self.closed = True  # Before the reader is woken, as it must now stop
             await self.can_read.set()
             await self.send(Closed())
 
